@@ -220,20 +220,52 @@ func (seg *Segmenter) splitByBidi(text Input) {
 	if text.Direction.Progression() == di.TowardTopLeft {
 		def = bidi.RightToLeft
 	}
-	seg.bidiParagraph.SetString(string(text.Text[text.RunStart:text.RunEnd]), bidi.DefaultDirection(def))
+
+	// the bidi algorithm works paragraph by paragraph, and [bidi.Paragraph] stops
+	// at the first paragraph separator
+	firstOutput := len(seg.output)
+	for start := text.RunStart; start < text.RunEnd; {
+		end := start
+		for end < text.RunEnd {
+			props, _ := bidi.LookupRune(text.Text[end])
+			end++
+			if props.Class() == bidi.B { // the separator ends its paragraph
+				break
+			}
+		}
+		seg.splitParagraphByBidi(text, start, end, def, firstOutput)
+		start = end
+	}
+}
+
+// splitParagraphByBidi handles the paragraph text.Text[start:end], appending to the runs
+// already added in seg.output[firstOutput:]
+func (seg *Segmenter) splitParagraphByBidi(text Input, start, end int, def bidi.Direction, firstOutput int) {
+	// add a run, or extend the previous one if it has the same direction
+	push := func(run Input) {
+		if L := len(seg.output); L > firstOutput && seg.output[L-1].Direction == run.Direction {
+			seg.output[L-1].RunEnd = run.RunEnd
+			return
+		}
+		seg.output = append(seg.output, run)
+	}
+
+	input := text
+	input.RunStart, input.RunEnd = start, end
+
+	seg.bidiParagraph.SetString(string(text.Text[start:end]), bidi.DefaultDirection(def))
 	out, err := seg.bidiParagraph.Order()
 	if err != nil || out.NumRuns() == 0 {
-		seg.output = append(seg.output, text)
+		push(input)
 		return
 	}
 
-	input := text // start a rune 0 of the run
 	for i := 0; i < out.NumRuns(); i++ {
 		currentInput := input
 		run := out.Run(i)
 		dir := run.Direction()
 		_, endRune := run.Pos()
-		endRune += text.RunStart // shift by the input run position
+		endRune += start // shift by the paragraph position
 		currentInput.RunEnd = endRune + 1
 
 		// override the direction
@@ -243,7 +275,7 @@ func (seg *Segmenter) splitByBidi(text Input) {
 			currentInput.Direction.SetProgression(di.FromTopLeft)
 		}
 
-		seg.output = append(seg.output, currentInput)
+		push(currentInput)
 		input.RunStart = currentInput.RunEnd
 	}
 }
